@@ -163,6 +163,7 @@ pub fn run_case(ctx: &mut Ctx, c: &Case) {
         ReadPlan::TextUtf8 => ctx.count("plan_text_utf8", 1),
         ReadPlan::ReadToEnd => ctx.count("plan_read_to_end", 1),
         ReadPlan::TextReader { .. } => ctx.count("plan_text_reader", 1),
+        ReadPlan::Json(_) => ctx.count("plan_json", 1),
     }
     if nsteps == built.wire.len() && nsteps > 1 {
         ctx.count("bytewise_cases", 1);
